@@ -63,8 +63,15 @@ def _vc_component(R: Report, pid: str, tier: str, only=None):
                 procs_.append(subprocess.Popen([sys.executable, "-m", "pyvc.worker", q, tier, out, "6" if heavy else "3"], cwd=VERIF,
                                                stdout=subprocess.DEVNULL, stderr=subprocess.PIPE, text=True, env=env))
             merged = {"records": [], "undecided": []}
+            limit = 1800 if tier == "quick" else 5400          # wall-clock limit per function: a check never hangs
             for pr, out in zip(procs_, outs):
-                _, err = pr.communicate()
+                try:
+                    _, err = pr.communicate(timeout=limit)
+                except subprocess.TimeoutExpired:
+                    pr.kill()
+                    pr.communicate()
+                    merged["undecided"].append([q, f"unsupported[-]: generation / discharge did not finish within {limit} s"])
+                    continue
                 if not os.path.exists(out):
                     return q, None, (err or "")[-400:]
                 d_ = json.load(open(out))
